@@ -44,6 +44,7 @@ type Obligation struct {
 	Output  string
 	Clause  *Clause
 	Replayed bool
+	Cases   []string // incoming edge conditions of the obligation's block (for case splitting)
 	fc      *FnCtx
 }
 
@@ -86,10 +87,13 @@ type FnCtx struct {
 	externs  map[string]bool
 	curIdx   int
 	exitReach map[*ssa.BasicBlock]string
+	rspecs   map[string]*renderedSpec
+	lemmaAsserts []lemmaAssert
 	specDF   []string
 	esc      *escInfo
 	existing []existingRef
 	lemmasUsed []string
+	curEdges []string
 	familyOf map[ssa.Value]*family
 	allocSite map[ssa.Value]string
 	specAX   []string
@@ -110,8 +114,7 @@ func (fc *FnCtx) assertGlobal(f string) {
 }
 
 func (fc *FnCtx) finalize() {
-	fc.specDF = fc.specDefs(false)
-	fc.specAX = fc.specDefs(true)
+	fc.renderSpecs()
 }
 
 type varRef struct {
@@ -173,7 +176,7 @@ func (fc *FnCtx) oblige(kind, label, cond string, pos token.Pos, cl *Clause) *Ob
 	if n := fc.occ[base]; n > 1 {
 		name = fmt.Sprintf("%s~%d", base, n)
 	}
-	ob := &Obligation{Fn: fc.name, Name: name, Kind: kind, Cond: cond, Guard: fc.curReach, Prefix: len(fc.asserts), Pos: pos, fc: fc, Clause: cl}
+	ob := &Obligation{Fn: fc.name, Name: name, Kind: kind, Cond: cond, Guard: fc.curReach, Prefix: len(fc.asserts), Pos: pos, fc: fc, Clause: cl, Cases: fc.curEdges}
 	if cl != nil {
 		ob.Tags = cl.Tags
 		ob.Src = cl.Src
@@ -752,6 +755,12 @@ func (fc *FnCtx) processBlock(b *ssa.BasicBlock, pos map[*ssa.BasicBlock]int) {
 		fc.reach[b] = r
 	}
 	fc.curReach = fc.reach[b]
+	fc.curEdges = nil
+	if len(fwd) > 1 && loop == nil {
+		for _, e := range fwd {
+			fc.curEdges = append(fc.curEdges, e.cond)
+		}
+	}
 	// heap at entry: merge forward predecessors
 	switch {
 	case b.Index == 0:
